@@ -40,7 +40,7 @@ pub fn apply_edits(orig: &[u8], edits: &[Value]) -> Vec<u8> {
     let mut base = orig.to_vec();
     // xor edits first, in place
     for e in edits {
-        if let Some(m) = e.get("x").and_then(|x| x.as_u64()) {
+        if let Some(m) = e.get("x").and_then(|x| x.as_u64()).filter(|m| *m != 0) {
             let o = e["o"].as_u64().unwrap_or(0) as usize;
             if o < base.len() {
                 base[o] ^= m as u8;
@@ -48,7 +48,7 @@ pub fn apply_edits(orig: &[u8], edits: &[Value]) -> Vec<u8> {
         }
     }
     // structural edits from the highest offset down, so earlier offsets stay valid
-    let mut st: Vec<&Value> = edits.iter().filter(|e| e.get("x").is_none()).collect();
+    let mut st: Vec<&Value> = edits.iter().filter(|e| e.get("x").and_then(|x| x.as_u64()).unwrap_or(0) == 0).collect();
     st.sort_by_key(|e| std::cmp::Reverse(e["o"].as_u64().unwrap_or(0)));
     for e in st {
         let o = (e["o"].as_u64().unwrap_or(0) as usize).min(base.len());
